@@ -6,6 +6,7 @@ package vrt
 
 import (
 	"fmt"
+	"os"
 	"strings"
 )
 
@@ -30,6 +31,7 @@ type Failure struct {
 }
 
 type Ctx struct {
+	tmpDirs []string
 	Params  map[string]int
 	Draws   []Draw
 	pos     int
@@ -45,6 +47,11 @@ type stop struct{}
 // Run executes harness h natively with the given draws and reports how it ended.
 func Run(h func(*Ctx), params map[string]int, draws []Draw) (c *Ctx) {
 	c = &Ctx{Params: params, Draws: draws}
+	defer func() {
+		for _, d := range c.tmpDirs {
+			os.RemoveAll(d)
+		}
+	}()
 	defer func() {
 		if r := recover(); r != nil {
 			if _, ok := r.(stop); ok {
@@ -254,4 +261,16 @@ func (c *Ctx) IteInt(cond bool, a, b int) int {
 		return a
 	}
 	return b
+}
+
+// TempDir returns a directory for file-backed stores: natively a fresh
+// temporary directory removed when the run ends; under the symbolic executor
+// a directory of the file-system model.
+func (c *Ctx) TempDir() string {
+	d, err := os.MkdirTemp("", "vrt-")
+	if err != nil {
+		panic(err)
+	}
+	c.tmpDirs = append(c.tmpDirs, d)
+	return d
 }
